@@ -30,8 +30,8 @@ ASSUMPTIONS = [
     'values outside the CSS 2.1 grammar are asserted invalid only when no CSS level could accept them (nonsense, wrong token kinds)',
     'default profiles are unrestricted',
 ]
-MIN_EVENTS = {'quick': {'oracle.profile-switch': 12000, 'oracle.grammar': 1100, 'oracle.metamorphic': 18000, 'oracle.paths': 4000, 'oracle.conjunction': 500, 'oracle.validate-onoff': 500},
-              'thorough': {'oracle.profile-switch': 250000, 'oracle.grammar': 1100, 'oracle.metamorphic': 250000, 'oracle.paths': 55000, 'oracle.conjunction': 12000, 'oracle.validate-onoff': 12000}}
+MIN_EVENTS = {'quick': {'oracle.profile-switch': 12000, 'oracle.fontface-conjunction': 2200, 'oracle.grammar': 1100, 'oracle.metamorphic': 18000, 'oracle.paths': 4000, 'oracle.conjunction': 500, 'oracle.validate-onoff': 500},
+              'thorough': {'oracle.profile-switch': 250000, 'oracle.fontface-conjunction': 45000, 'oracle.grammar': 1100, 'oracle.metamorphic': 250000, 'oracle.paths': 55000, 'oracle.conjunction': 12000, 'oracle.validate-onoff': 12000}}
 
 NEGATIVE_OK = {'margin-top', 'margin-right', 'margin-bottom', 'margin-left', 'top', 'right', 'bottom', 'left', 'z-index', 'text-indent',
                'letter-spacing', 'word-spacing', 'vertical-align'}  # fmt: skip
@@ -102,6 +102,23 @@ def spell(value, kind, rng):
                 out.append(t.upper())
             elif kind == 'mixed' and not t.startswith(('"', "'", 'url(', 'attr(', 'counter(')):
                 out.append(''.join(c.upper() if rng.random() < 0.5 else c for c in t))
+            elif kind == 'comments-inside' and '(' in t and t.endswith(')') and not t.lower().startswith(('url(', 'attr(', 'counter(', '"', "'")):
+                # comments inside a function: after "(", after a "," and before ")"
+                head, rest = t.split('(', 1)
+                inner = rest[:-1]
+                if '"' in inner or "'" in inner or '(' in inner:
+                    out.append(t)
+                else:
+                    parts = [x for x in inner.split(',')]
+                    where = rng.randrange(3)
+                    if where == 0:
+                        parts[0] = '/*c*/' + parts[0]
+                    elif where == 1:
+                        parts[-1] = parts[-1] + '/*c*/'
+                    else:
+                        k = rng.randrange(len(parts))
+                        parts[k] = parts[k] + ' /**/'
+                    out.append(head + '(' + ','.join(parts) + ')')
             else:
                 out.append(t)
     text = ''.join(out)
@@ -112,7 +129,7 @@ def spell(value, kind, rng):
     return text
 
 
-SPELLINGS = ['plain', 'upper', 'mixed', 'ws', 'comments']
+SPELLINGS = ['plain', 'upper', 'mixed', 'ws', 'comments', 'comments-inside']
 
 
 def verdict_parsed(cssutils, name, text, context='style'):
@@ -331,6 +348,39 @@ def sheets_stream(ctx, cssutils, count):
             ctx.violation('exception', case, {'tb': core.short_tb(e)}, site=core.raise_site(e))
 
 
+FF_DECLS = ['font-family:f', 'font-family:"a b"', 'src:url(x.woff)', 'src:url(x.eot) format(eot)', 'src:local(x), url(y.ttf) format("truetype")', 'src:zqx zqx', 'font-weight:bold', 'font-weight:bolder',
+            'font-style:italic', 'font-style:inherit', 'font-stretch:condensed', 'font-stretch:wider', 'unicode-range:U+0-7F', 'unicode-range:zqx', 'font-variant:small-caps', 'color:red']
+
+
+def fontface_stream(ctx, cssutils, count):
+    """an @font-face rule is valid iff all its declarations are (every one, also a repeated descriptor that a later one overrides)
+    and the required descriptors font-family and src are there"""
+    for i in range(count):
+        if not ctx.mine(i):
+            continue
+        rng = ctx.rng('ff', i)
+        decls = [rng.choice(FF_DECLS) for _ in range(rng.randint(1, 6))]
+        text = '@font-face{%s}' % ';'.join(decls)
+        case = {'kind': 'fontface', 'text': text}
+        ctx.count('oracle.fontface-conjunction')
+        ctx.count('evaluations')
+        try:
+            core.canonical_state(cssutils, raising=False)
+            sheet = cssutils.parseString(text)
+            core.canonical_state(cssutils)
+            if not len(sheet.cssRules):
+                continue
+            r = sheet.cssRules[0]
+            props = r.style.getProperties(all=True)
+            names = {p.name for p in props}
+            want = all(p.valid for p in props) and {'font-family', 'src'} <= names
+            if bool(r.valid) != want or bool(sheet.valid) != want:
+                ctx.violation('conjunction', case, {'rule.valid': r.valid, 'sheet.valid': sheet.valid, 'declarations': [[p.name, p.value, bool(p.valid)] for p in props], 'expected': want})
+            ctx.seen(['ff', tuple(sorted(names)), want])
+        except Exception as e:
+            ctx.violation('exception', case, {'tb': core.short_tb(e)}, site=core.raise_site(e))
+
+
 SWITCH_PAIRS = [('opacity', '0.5'), ('text-shadow', 'none'), ('resize', 'both'), ('box-sizing', 'border-box'), ('overflow-x', 'hidden'), ('color', 'rgba(1,2,3,0.5)'), ('color', 'red'),
                 ('width', '1px'), ('width', 'zqx'), ('cursor', 'zoom-in'), ('outline-offset', '2px'), ('border-radius', '1px'), ('font-stretch', 'wider'), ('size', 'a4'), ('src', 'url(a)'),
                 ('text-overflow', 'ellipsis'), ('word-wrap', 'break-word'), ('nosuch', '1')]  # fmt: skip
@@ -376,6 +426,7 @@ def run_worker(ctx):
     cssutils, _ = core.import_repo()
     quick = ctx.tier == 'quick'
     profile_switch_stream(ctx, cssutils, 1200 if quick else 25000)
+    fontface_stream(ctx, cssutils, 3000 if quick else 60000)
     grammar_stream(ctx, cssutils)
     metamorphic_stream(ctx, cssutils, 4500 if quick else 70000)
     sheets_stream(ctx, cssutils, 700 if quick else 15000)
@@ -388,6 +439,15 @@ def replay(ctx, case):
         name, value = case['name'], case['value']
         expect = case.get('expect')
         judge_pair(ctx, cssutils, name, value, random.Random(0), case.get('vclass', 'pool'), expect, case.get('context', 'style'))
+    elif case.get('kind') == 'fontface':
+        core.canonical_state(cssutils, raising=False)
+        sheet = cssutils.parseString(case['text'])
+        core.canonical_state(cssutils)
+        r = sheet.cssRules[0]
+        props = r.style.getProperties(all=True)
+        want = all(p.valid for p in props) and {'font-family', 'src'} <= {p.name for p in props}
+        if bool(r.valid) != want:
+            ctx.violation('conjunction', case, {'rule.valid': r.valid, 'expected': want})
     elif case.get('kind') == 'switch':
         P = cssutils.profiles.Profiles
         reg = cssutils.profile
